@@ -9,6 +9,7 @@ mod ops;
 mod pace;
 mod run;
 mod scen;
+mod scen2;
 mod vocab;
 mod world;
 
@@ -313,11 +314,11 @@ impl Agg {
 pub fn nontrivial_for(prop: &str, s: &Stats) -> bool {
     let any = |pre: &str, suf_not: &str| s.c.iter().any(|(k, v)| *v > 0 && k.starts_with(pre) && (suf_not.is_empty() || !k.ends_with(suf_not)));
     match prop {
-        "C01" | "C06" => (any("store_", "_Sleeping") || any("multiadopt_", "_Sleeping") || any("fwdmulti_", "_Sleeping")) && s.get("free_events") > 0,
-        "C02" => s.get("audits") > 0 && s.get("free_events") > 0,
+        "C01" | "C06" => (any("store_", "_Sleeping") || any("multiadopt_", "_Sleeping") || any("fwdmulti_", "_Sleeping")) && s.get("free_events") + s.get("destruct_events") > 0,
+        "C02" => s.get("audits") > 0 && s.get("free_events") + s.get("destruct_events") > 0,
         "C03" => s.get("register_validations") > 0 && (any("alloc_", "_Sleeping")),
-        "C04" => s.get("free_events") > 0 && s.c.iter().any(|(k, v)| *v > 0 && k.starts_with("arena_dropped_in_")),
-        "C05" => any("upgrade_", "") && s.get("free_events") > 0,
+        "C04" => s.get("free_events") + s.get("destruct_events") > 0 && s.c.iter().any(|(k, v)| *v > 0 && k.starts_with("arena_dropped_in_")),
+        "C05" => any("upgrade_", "") && s.get("free_events") + s.get("destruct_events") > 0,
         "C07" => s.get("finalize_callbacks") > 0 && (s.get("is_dead_weak_queries") + s.get("is_dead_weak_queries_clean") + s.get("resurrect_live") + s.get("resurrect_strong") > 0),
         "C08" => s.get("phase_contract_checks") >= 5,
         "C09" => s.get("pace_bound_checks") + s.get("pace_sleep_checks_past_wakeup") + s.get("pace_stw_checks") > 0,
